@@ -170,7 +170,7 @@ type Solver struct {
 func NewSolver() *Solver {
 	s := &Solver{fpMemo: map[int]bool{}}
 	s.St.BySolver = map[string]int{}
-	s.Timeout = [4]int{5000, 30000, 30000, 60000}
+	s.Timeout = [4]int{5000, 30000, 30000, 20000}
 	return s
 }
 
@@ -199,7 +199,7 @@ func (s *Solver) getProc(stage int) *proc {
 	case 4:
 		// second chance with a long limit: time limits are wall-clock, so a loaded machine turns
 		// a 4 s query into an "unknown" on every short-limit back end
-		p = &proc{name: "z3-long", argv: []string{"z3", "-in", "-t:" + strconv.Itoa(20*s.Timeout[0])}}
+		p = &proc{name: "z3-new-long", argv: []string{"z3-new", "-in", "-t:" + strconv.Itoa(6*s.Timeout[3])}}
 	case 5:
 		p = &proc{name: "cvc5-long", argv: []string{"cvc5", "--incremental", "--lang=smt2", "--tlimit-per=" + strconv.Itoa(6*s.Timeout[2])}}
 	}
@@ -336,10 +336,12 @@ func (s *Solver) Check(assertions []*Term, vars []*Term, wantModel bool) (Result
 	}
 	noFP := needsNoFP(s, assertions)
 	var lastErr string
-	order := []int{0, 1, 2, 3}
+	// z3 4.8.12 first (fast on the bulk), then z3 5.1.0 (decides in seconds several large bit-vector
+	// queries the old one gives up on), then the two cvc5 configurations
+	order := []int{0, 3, 1, 2}
 	if noFP && s.hardArith(assertions) {
 		// multiply/divide kernels: bit-blasting stalls, the integer encoding decides
-		order = []int{1, 0, 2, 3}
+		order = []int{1, 0, 3, 2}
 	}
 	for _, stage := range order {
 		if stage == 1 && !noFP {
